@@ -172,7 +172,7 @@ impl Caret {
     }
 
     pub fn down(&mut self, buf: &mut Buffer, current_layer: usize, num: i32) {
-        self.pos.y += num;
+        self.pos.y = self.pos.y.saturating_add(num);
         self.check_scrolling_on_caret_down(buf, current_layer, false);
         buf.terminal_state.limit_caret_pos(buf, self);
     }
